@@ -60,12 +60,21 @@ Example C09_blocked_state_reachable :
 Proof. exact demo_blocked. Qed.
 Print Assumptions C09_blocked_state_reachable.
 
-(* Every send happens with no lock held (a sender blocked on a full, unread
-   notification channel cannot take part in a lock-wait cycle). *)
+(* Every BLOCKING channel operation of the table — a send outside a select-with-default, a receive or a
+   select without default — is performed with no lock held (a goroutine blocked on a channel can then not
+   take part in a lock-wait cycle, nor keep a lock from Close/Capture/Release).  Non-blocking operations
+   (the guarded `select { case C <- n: default: }` of sendNotification, close, the wake-up swap) may hold
+   locks; the source-derived tie distinguishes the two ("send:" vs "trysend:"). *)
 Theorem C09_sends_hold_no_lock :
   forallb (fun o => sends_unlocked op [] (flat op (template o))) all_ops = true.
 Proof. exact sends_hold_no_lock. Qed.
 Print Assumptions C09_sends_hold_no_lock.
+
+Example C09_blocking_ops_exist :
+  existsb (fun o => existsb (fun a => match a with TRecv _ | TExitIfClosed _ => true | _ => false end)
+                            (flat op (template o))) all_ops = true.
+Proof. exact blocking_ops_exist. Qed.
+Print Assumptions C09_blocking_ops_exist.
 
 (* ---------------------------------------------------------------------- *)
 (* Lockset.  History: on the unrepaired library the full-strength statement was REFUTED (109 recorded keys:
